@@ -90,9 +90,10 @@ CHECKS = {
     category='other',
     text='Bounded stand-ins: tau=0 gives I\'=-gamma I, I\'\'=gamma^2 I (S constant for SIR models, S=N-I for SIS) from the exact Lie derivatives of every evaluable '
          'ODE wrapper; gamma=0: SIS and SIR versions have identical Lie derivatives of S up to order 3; EBCM_discrete satisfies R(t+1)=R(t)+I(t) exactly for symbolic '
-         'p, rho; attack rates agree numerically with the long-time limits of EBCM / EBCM_discrete. Exactness of SIR_pair_based on trees is NOT decided by this family.',
+         'p, rho; attack rates agree numerically with the long-time limits of EBCM / EBCM_discrete; SIR_pair_based_pure_IC equals the 3^N-state master-equation expectation on small trees '
+         '(<= 6 nodes, all single seeds, weights on edges and nodes, tmin != 0; tolerance 2e-4).',
     design_ref='DESIGN.md section 5 "C08"',
-    note='Partial by design: the tree-exactness clause is not decidable by contracts (stated in DESIGN). Bounded in order / graphs / degree distributions.',
+    note='The tree-exactness clause is a theorem about the closure and is only checked up to a stated bound. Bounded in order / graphs / degree distributions.',
     technique='symbolic execution of the real right-hand sides (sympy) + bounded native numeric comparison for final sizes'),
  'C14': dict(
     category='other',
